@@ -274,9 +274,29 @@ def run(repo: Repo, rep: Report, tier: str) -> None:
     mcf = emit_cls.methods["_configure_decider_multi_condition"]
     row_r = {r.key for r in readers_in(mcf, None, lambda t: t == "ELEM(conditions_list)")}
     rep.floor("C07-R4", "row keys written", len({w.key for w in row_w}), 4)
+    # bookkeeping keys of a row (a reference kept for the planner, not configuration): read by a layout-stage function off the rows of `conditions`
+    layout_row_r: set[str] = set()
+    for f_l in repo.all_funcs():
+        if ".layout." not in f_l.module.name + ".":
+            continue
+        c_l = canon(f_l)
+        for c in calls_in(f_l.node, "get"):
+            if isinstance(c.func, ast.Attribute) and c.args and "'conditions'" in c_l.text(c.func.value) and c_l.text(c.func.value).startswith("ELEM("):
+                a0 = c.args[0]
+                if isinstance(a0, ast.Constant) and isinstance(a0.value, str):
+                    layout_row_r.add(a0.value)
+                elif isinstance(a0, ast.JoinedStr):
+                    # f"{side}_signal_id" with side drawn from a literal tuple
+                    for alt in c_l.alts(a0):
+                        m_ = re.fullmatch(r"f'\{ELEM\(\((.+)\)\)\}(\w+)'", alt)
+                        if m_:
+                            for lit in re.findall(r"'(\w+)'", m_.group(1)):
+                                layout_row_r.add(lit + m_.group(2))
     for k in sorted({w.key for w in row_w}):
         w = [x for x in row_w if x.key == k][0]
-        rep.check(k in row_r, "C07-R4", f"condition-row key '{k}' written by {w.f.short} is emitted", "read by _configure_decider_multi_condition" if k in row_r else "row key has no reader", w.loc)
+        ok_k = k in row_r or k in layout_row_r
+        rep.check(ok_k, "C07-R4", f"condition-row key '{k}' written by {w.f.short} is emitted", "read by _configure_decider_multi_condition" if k in row_r else
+                  ("bookkeeping: read by the planner's colour injection" if ok_k else "row key has no reader"), w.loc)
 
     # ---------------- R5 ---------------------------------------------------------------
     rep.rule("C07-R5", "the signal-name table is one object shared by identity: the planner's analyzer writes the names it allocates into it and the emitter reads them back for entity "
